@@ -38,4 +38,4 @@ for sid in ids:
     json.dump(results, open(res_path, "w"), indent=1)
 # restore Gen files / build state for the unchanged tree
 for pid in sorted({p for s in ids for p in (json.load(open(os.path.join(V, "seeded", s, "meta.json"))).get("checks") or [json.load(open(os.path.join(V, "seeded", s, "meta.json")))["property"]])}):
-    sh("./check %s quick" % pid, cwd=V, timeout=3600)
+    sh("VERIF_NO_EVIDENCE=1 ./check %s quick" % pid, cwd=V, timeout=3600)
